@@ -254,7 +254,7 @@ theorem probeM_Yentry (P : Net L K) (pid : String) (a : L) (n m : L) :
     simp only [Function.comp_apply, hp b, zeroSources_Yfin]
   by_cases h : n = m
   · simp only [h, if_true]
-    exact key (fun b => decide (b.n1 = m ∨ b.n2 = m)) (fun b => rfl)
+    exact key (fun b => decide ((b.n1 = m ∨ b.n2 = m) ∧ b.n1 ≠ b.n2)) (fun b => rfl)
   · simp only [h, if_false]
     rw [key (fun b => decide ((b.n1 = n ∧ b.n2 = m) ∨ (b.n1 = m ∧ b.n2 = n))) (fun b => rfl)]
 
